@@ -179,6 +179,25 @@ def _g3(z, x, y=2):
     return r_p2(x, y)
 
 
+def _logged(fn):
+    """an ordinary functools.wraps decorator: the outer signature (*args, **kwds) differs from the inner one"""
+    @functools.wraps(fn)
+    def wrapper(*args, **kwds):
+        return fn(*args, **kwds)
+    return wrapper
+
+
+def r_w2(x, y=2):
+    return _res('w2(%r,%r)' % (_R(x), _R(y)))
+
+
+def _w2_inner(x, y=2):
+    _enter('w2', show((x, y)))
+    return r_w2(x, y)
+
+
+w2 = _logged(_w2_inner)
+w2.__name__ = w2.__qualname__ = 'w2'       # importable by name (dill pickles it by reference)
 _OBJ = _Obj()
 _M2 = _OBJ.m2
 _P2 = functools.partial(_g3, 10)
@@ -236,13 +255,13 @@ def f6(x, y=2, *a, **kw):
 
 FUNCS = {'f1': (f1, r_f1), 'f2': (f2, r_f2), 'f3': (f3, r_f3),
          'f4': (f4, r_f4), 'f5': (f5, r_f5), 'f6': (f6, r_f6), 'f7': (f7, r_f7), 'f8': (f8, r_f8), 'f9': (f9, r_f9),
-         'm2': (_M2, r_m2), 'c2': (_OBJ, r_c2), 'p2': (_P2, r_p2),
+         'm2': (_M2, r_m2), 'c2': (_OBJ, r_c2), 'p2': (_P2, r_p2), 'w2': (w2, r_w2),
          'b1': (max, r_b1), 'r1': (r1, r_r1)}          # a builtin without introspectable signature, always called with two Cnt
 # signature twins: f7 is spelled like f2, f8 like f4 (they differ in the default value only)
-SHAPE = {'f7': 'f2', 'f8': 'f4', 'm2': 'f2', 'c2': 'f2', 'p2': 'f2'}
-DFLT = {'f2': 2, 'f6': 2, 'f4': 1, 'f7': 7.26, 'f8': 7.26, 'm2': 2, 'c2': 2, 'p2': 2}
+SHAPE = {'f7': 'f2', 'f8': 'f4', 'm2': 'f2', 'c2': 'f2', 'p2': 'f2', 'w2': 'f2'}
+DFLT = {'f2': 2, 'f6': 2, 'f4': 1, 'f7': 7.26, 'f8': 7.26, 'm2': 2, 'c2': 2, 'p2': 2, 'w2': 2}
 DEFAULTS = {'f2': ('y', 2), 'f6': ('y', 2), 'f4': ('k', 1), 'f7': ('y', 7.26), 'f8': ('k', 7.26)}
-VARIADIC = ('f3', 'f6', 'b1')
+VARIADIC = ('f3', 'f6', 'b1', 'w2')
 
 
 def sibling_of(fn):
@@ -317,7 +336,7 @@ def gen_config(rng, prop, tier):
         maxsize = rng.choice([30, 40])      # LFU evicts max(2, maxsize//10) entries: >2 only from 30 up
     purge = rng.chance(0.3) and prop != 'C06'
     fn = rng.weighted([(3, 'f1'), (4, 'f2'), (2, 'f3'), (2, 'f4'), (2, 'f5'), (2, 'f6'), (1, 'f7'), (1, 'f8'), (1, 'f9'), (1, 'b1'),
-                       (1, 'm2'), (1, 'c2'), (1, 'p2')])
+                       (1, 'm2'), (1, 'c2'), (1, 'p2'), (1, 'w2')])
     if prop in ('C01', 'C05', 'C15') and not wide and rng.chance(0.06):
         fn = 'r1'        # a memoized recursive function (re-entrant calls)
     if wide:
@@ -339,6 +358,8 @@ def gen_config(rng, prop, tier):
         kind, arg = rng.choice(KEYMAPS)
         km = {'kind': kind, 'arg': arg, 'flat': rng.chance(0.6), 'typed': rng.chance(0.25),
               'sentinel': rng.chance(0.3)}
+        if kind == 'pickle' and arg in ('dill', 'pickle') and rng.chance(0.4):
+            km['proto'] = rng.choice([2, 3])      # an extra encoder option (changes the key bytes)
         if kind == 'raw':
             km['flat'] = True     # the non-flat raw key (args, kwds-dict) is never hashable
         if not km['flat']:
@@ -500,7 +521,7 @@ def spell(rng, fn, c):
 
 
 BAD_ARGS = [[1, 2], {'$d': [['a', 1]]}, {'$s': [1, 2]}, {'$o': 'badrepr'}, {'$o': 'unpicklable'},
-            [[1], {'$o': 'unpicklable'}]]
+            [[1], {'$o': 'unpicklable'}], {'$deep': 3000}, {'$d': [[1, 2.5]]}, [{'$d': [[{'$t': [0, 1]}, 4.0]]}]]
 
 OPMIX = {
     'C01': [(60, 'call'), (2, 'sibling_call'), (5, 'peer_call'), (4, 'load'), (3, 'load_k'), (4, 'dump'), (2, 'dump_k'), (3, 'clear'),
